@@ -549,6 +549,8 @@ def pipe_batch(rxns, fresh=False):
                                     len(rxns), None if rows is None else len(rows), out["raised"])))
         return res
     for i, (text, row) in enumerate(zip(rxns, rows)):
+        if isinstance(text, dict):
+            text = text["reaction"]
         verdict, info = pipeline_row_problem(text, row)
         if verdict == "skip":
             if info == "template":
@@ -763,6 +765,8 @@ def run(tier, seed):
         rxns = pf.rxn_universe(pf.A01[:8], 2)
     rxns = pf.dedupe(list(rxns) + HALOGEN_RXNS)
     batches = [rxns[i:i + 20] for i in range(0, len(rxns), 20)]
+    # rule-based rows of dict inputs that bring their own (1-based / reversed / textual) id column
+    batches += [u[1] for u in pf.ids_universes() if u[2] == {}]
     pr = pmap("checks.c08:pipe_batch", batches, chunk=1, seed=seed, timeout=7200)
     n_rows = sum(x["n"] for x in pr)
     rb_rows = set()
